@@ -613,7 +613,7 @@ func (p *Prog) collapseForwarders(tops []*ssa.Function) {
 					ok = false
 				}
 				call = x
-			case *ssa.Alloc, *ssa.FieldAddr, *ssa.Store, *ssa.UnOp, *ssa.DebugRef, *ssa.Extract, *ssa.Return:
+			case *ssa.Alloc, *ssa.FieldAddr, *ssa.Store, *ssa.UnOp, *ssa.DebugRef, *ssa.Extract, *ssa.Return, *ssa.MakeInterface, *ssa.ChangeType:
 			default:
 				ok = false
 			}
@@ -694,7 +694,14 @@ func (p *Prog) collapseForwarders(tops []*ssa.Function) {
 							good = false
 							continue
 						}
-						k := pidx(s2.Val)
+						sv := s2.Val
+						if mi, isMI := sv.(*ssa.MakeInterface); isMI {
+							sv = mi.X /* a parameter put into an interface-typed field */
+						}
+						if ct, isCT := sv.(*ssa.ChangeType); isCT {
+							sv = ct.X
+						}
+						k := pidx(sv)
 						if k < 0 || covered[y.Field] {
 							good = false
 							continue
